@@ -27,6 +27,7 @@ import (
 var (
 	verifDir = "/verif"
 	repoDir  = "/repo"
+	outDir   = "/verif" // evidence/, replay/ and .scratch/ live here
 )
 
 type harnessFile struct {
@@ -278,6 +279,15 @@ func main() {
 	// replay files are then read from / written to that snapshot; /repo is always the tree checked
 	if d := os.Getenv("VCHECK_VERIF_DIR"); d != "" {
 		verifDir = d
+		outDir = d
+	}
+	// experiments against another checkout (a seeded change in a scratch worktree):
+	// the registered commands never set these
+	if d := os.Getenv("VCHECK_REPO_DIR"); d != "" {
+		repoDir = d
+	}
+	if d := os.Getenv("VCHECK_OUT_DIR"); d != "" {
+		outDir = d
 	}
 	tier := flag.String("tier", "", "quick or thorough")
 	only := flag.String("only", "", "run only harnesses whose name contains this")
@@ -377,7 +387,7 @@ func run(id, tier, only string, workers int, trace bool, replayFile, solver stri
 			useFiles = append(useFiles, f)
 		}
 	}
-	scratch := filepath.Join(verifDir, ".scratch", fmt.Sprintf("%s-%d", id, os.Getpid()))
+	scratch := filepath.Join(outDir, ".scratch", fmt.Sprintf("%s-%d", id, os.Getpid()))
 	defer os.RemoveAll(scratch)
 
 	if replayFile != "" {
@@ -622,8 +632,8 @@ func run(id, tier, only string, workers int, trace bool, replayFile, solver stri
 	exit := 0
 	nViol := 0
 	printedKnown := map[string]bool{}
-	os.RemoveAll(filepath.Join(verifDir, "replay", id))
-	os.MkdirAll(filepath.Join(verifDir, "replay", id), 0755)
+	os.RemoveAll(filepath.Join(outDir, "replay", id))
+	os.MkdirAll(filepath.Join(outDir, "replay", id), 0755)
 	for _, vd := range verdicts {
 		if vd.status != "reproduced" {
 			continue
@@ -638,7 +648,7 @@ func run(id, tier, only string, workers int, trace bool, replayFile, solver stri
 		nViol++
 		if nViol <= 5 {
 			h := fmt.Sprintf("%s-%08x", vd.v.Harness, hashStr(fmt.Sprint(vd.v.Msg, vd.v.Choices)))
-			path := filepath.Join(verifDir, "replay", id, h+".json")
+			path := filepath.Join(outDir, "replay", id, h+".json")
 			b, _ := json.MarshalIndent(map[string]interface{}{"property": id, "harness": vd.v.Harness, "assertion": vd.v.Msg, "where": vd.v.Where,
 				"model": vd.v.Model, "choices": vd.v.Choices, "notes": vd.v.Notes, "tier": tierN, "params": params, "package": violPkg[vd.v]}, "", " ")
 			os.WriteFile(path, b, 0644)
@@ -718,9 +728,9 @@ func run(id, tier, only string, workers int, trace bool, replayFile, solver stri
 			"known_findings_hit":            keys(printedKnown),
 		},
 	}
-	os.MkdirAll(filepath.Join(verifDir, "evidence"), 0755)
+	os.MkdirAll(filepath.Join(outDir, "evidence"), 0755)
 	eb, _ := json.MarshalIndent(ev, "", " ")
-	os.WriteFile(filepath.Join(verifDir, "evidence", id+".json"), eb, 0644)
+	os.WriteFile(filepath.Join(outDir, "evidence", id+".json"), eb, 0644)
 	fmt.Fprintf(os.Stderr, "%s %s: exit %d, %d paths, %d queries, %.1fs\n", id, tier, exit, totalPaths, totalQueries, time.Since(t0).Seconds())
 	return exit
 }
